@@ -205,14 +205,24 @@ def fam_reduce_ragged(rng):
         red = rng.choice(["argmin", "argmax"])
         if rng.random() < 0.5:
             L.NONE_P = 0.0
+    special = False
+    if rng.random() < 0.06:
+        # sums and products over zeros, infinities and NaN in every order (0 * inf, inf - inf): the fold must take every
+        # element of the group, in element order
+        T = gen_pure(rng, rng.randint(1, 2), leaf=["float64", "float64", "float32"])
+        depth, dtype = R.list_depth(T)
+        red = rng.choice(["prod", "prod", "sum"])
+        special = True
     if dtype == "complex64" and red == "prod":
         return None          # (products of float32 pairs are not exact for the generated values)
     # (min / max / argmin / argmax: now and then values at the ends of the integer type's range)
     L.EXTREME_P = 0.3 if (red in ("min", "max", "argmin", "argmax") and rng.random() < 0.2) else 0.0
+    L.SPECIAL_P = 0.7 if special else 0.0
     try:
         vals = [L.gen_value(rng, T) for _ in range(L.toplen(rng, 0, 4))]
     finally:
         L.EXTREME_P = 0.0
+        L.SPECIAL_P = 0.0
     isarg = red in ("argmin", "argmax")
     if red in ("min", "max", "argmin", "argmax") and "nan" in repr(vals):
         return None
